@@ -31,7 +31,7 @@ MODELLED = ("linear.c: linearize linXTokens(linXComments,linXNewLines) linXBlank
 THEOREMS = [("AldorVerif.Props.C14", "AldorVerif.Linear." + t) for t in (
     "blank_comment_invariant", "line_numbers_irrelevant", "blank_comment_invariant_mod_positions",
     "linearize_braced_eq", "spacing_invariant_braced", "indent_scale_invariant", "reposition_invariant",
-    "indent_scale_widths", "pile_eq_braces_partial")]
+    "indent_scale_widths", "pile_eq_braces", "pile_eq_braces_tags")]
 
 # token tags (enum tokenTag)
 TK_Id, TK_Blank, TK_Int, TK_Float, TK_String, TK_PreDoc, TK_PostDoc, TK_Comment, TK_SysCmd, TK_Error = range(1, 11)
@@ -545,6 +545,17 @@ def run_part(ctx, build):
         elif r < 0.6 and nopile and not loop:
             t2 = [(tag, ln, rng.randint(1, 40)) for (tag, ln, col) in t]
             rnd.append((req_of(t2, 0), "twin_columns", i0, None))
+        elif r < 0.72 and r >= 0.6:
+            # only the columns of tokens that can start a line are kept (leading_columns_only_statement)
+            t2 = []
+            prev = []        # tags of the preceding tokens, comments aside (they are removed first)
+            for i, (tag, ln, col) in enumerate(t):
+                lead = (not prev or prev[-1] in (KW_NewLine, KW_StartPile, KW_EndPile, KW_OCurly, KW_CCurly)
+                        or (len(prev) >= 2 and prev[-2] == KW_At))
+                t2.append((tag, ln, col if lead else rng.randint(1, 40)))
+                if tag != TK_Comment:
+                    prev.append(tag)
+            rnd.append((req_of(t2, loop), "twin_nonleading", i0, None))
         elif r < 0.9:
             f = expanding_map(rng, 5)
             sh = rng.randint(0, 5)
@@ -722,6 +733,10 @@ def run_part(ctx, build):
                 stats["twin_columns"] += 1
                 if [(t[0], t[1], t[3]) for t in b[0]] != [(t[0], t[1], t[3]) for t in v[0]] or b[1] != v[1]:
                     impl_ok, why = False, "changing columns in a token list without #pile changed the result"
+            elif kind == "twin_nonleading":
+                stats["twin_nonleading"] = stats.get("twin_nonleading", 0) + 1
+                if [(t[0], t[1], t[3]) for t in b[0]] != [(t[0], t[1], t[3]) for t in v[0]] or b[1] != v[1]:
+                    impl_ok, why = False, "changing the columns of tokens that do not start a line changed the result"
             elif kind == "twin_monotone":
                 stats["twin_monotone"] += 1
                 f, sh = mp
@@ -738,7 +753,7 @@ def run_part(ctx, build):
             else:
                 ctx.corr_broken.append((NAME, ln, co, mo))
         elif not impl_ok:
-            ctx.violation("linear|model-and-impl-wrong|" + kind, "implementation and model agree but %s: %s -> %s (base %s -> %s); contradicts the proved invariance theorems"
+            ctx.violation("linear|model-and-impl-wrong|" + kind, "implementation and model agree but %s: %s -> %s (base %s -> %s); contradicts the invariance theorems (twin_nonleading: the unproved leading_columns_only_statement)"
                           % (why, ln[:300], co[:300], rnd[i0][0][:300], c[base_k + i0][:300]),
                           {"kind": "inconsistent", "line": ln, "base_line": rnd[i0][0], "impl": co, "impl_base": c[base_k + i0]})
         if j % 1500 == 7:
@@ -772,10 +787,10 @@ def run_part(ctx, build):
                             {"kind": "impl-violates-property", "program": prog, "piled": rp, "braced": rb, "impl_piled": cp, "impl_braced": cb,
                              "model_piled": mp_, "model_braced": mb})
         elif not impl_ok:
-            # the general statement is only proved for bounded programs (pile_eq_braces_partial)
+            # contradicts the theorem pile_eq_braces: the python renderer or the Lean driver is wrong
             ctx.violation("linear|pile-vs-braces-statement", "model and linear.c agree, but the piled and the braced rendering of a block-language program "
-                          "are linearised differently (pile_eq_braces_statement fails): %s -> %s ; %s -> %s" % (rp[:200], cp[:200], rb[:200], cb[:200]),
-                          {"kind": "statement-refuted", "program": prog, "piled": rp, "braced": rb, "impl_piled": cp, "impl_braced": cb})
+                          "are linearised differently (contradicts pile_eq_braces): %s -> %s ; %s -> %s" % (rp[:200], cp[:200], rb[:200], cb[:200]),
+                          {"kind": "inconsistent", "program": prog, "piled": rp, "braced": rb, "impl_piled": cp, "impl_braced": cb})
 
     stats["lines"] = len(lines)
     stats["tags"] = hist
